@@ -242,6 +242,10 @@ def threadsOf (cfg : Cfg) : QId → List TId
 def setWk (s : State Val Err) (k : Nat) (w : Worker Val Err) : State Val Err :=
   { s with wk := s.wk.set k w }
 
+/-- `_executor_is_alive(executor)` is false: every thread of the inner executor has terminated. -/
+def innerAllEnded (cfg : Cfg) (s : State Val Err) : Bool :=
+  (threadsOf cfg .inner).all (fun t => (threadEnded s t).isSome)
+
 /-- Values of the futures a call depends on, if all of them finished with a value. -/
 def inputsOf (s : State Val Err) : List Nat → Option (List Val)
   | [] => some []
@@ -443,7 +447,9 @@ def resStep (s : State Val Err) (lbl : Label Val Err) : Option (State Val Err) :
         else none
       | none => none
     | .stopping w, .rBeginSd =>
-      if s.waitLst = [] then
+      -- parked calls are forwarded first; the wait is given up only when no thread of the inner
+      -- executor is alive any more (`_executor_is_alive`), i.e. their inputs can never finish
+      if s.waitLst = [] ∨ s.innerOpen = false ∨ innerAllEnded cfg s then
         if s.innerOpen then
           let sd : Sd := { target := .inner, wait := w, pc := .putStops (threadsOf cfg .inner).length }
           some { s with res := some (.inSd (sdNorm cfg sd)) }
